@@ -29,6 +29,41 @@ theorem delta_ext {a b : Delta α} (h1 : a.kind = b.kind) (h2 : a.id = b.id) (h3
 def CkeyInjective (ds : List (Delta α)) : Prop :=
   ∀ a ∈ ds, ∀ b ∈ ds, ckey a = ckey b → a.kind = b.kind ∧ a.id = b.id ∧ a.attr = b.attr
 
+/-! ### the repaired `_canonical_key` is injective in the target -/
+
+theorem enc_sep_inj : ∀ (x y r r' : Str), enc x ++ 0 :: r = enc y ++ 0 :: r' → x = y ∧ r = r' := by
+  intro x
+  induction x with
+  | nil =>
+    intro y r r' h
+    cases y with
+    | nil => simpa [enc] using h
+    | cons c ys => simp [enc] at h
+  | cons c xs ih =>
+    intro y r r' h
+    cases y with
+    | nil => simp [enc] at h
+    | cons c' ys =>
+      simp only [enc, List.map_cons, List.cons_append, List.cons.injEq, Nat.add_right_cancel_iff] at h
+      obtain ⟨h1, h2⟩ := ih ys r r' (by simpa [enc] using h.2)
+      exact ⟨by rw [h.1, h1], h2⟩
+
+theorem enc_inj {x y : Str} (h : enc x = enc y) : x = y := by
+  have : Function.Injective (fun n : Nat => n + 1) := fun a b hab => Nat.add_right_cancel hab
+  exact List.map_injective_iff.2 this h
+
+/-- distinct targets never share a key (`C03:t4:order.ckey-collision`, fixed) -/
+theorem ckey_inj {a b : Delta α} (h : ckey a = ckey b) :
+    a.kind = b.kind ∧ a.id = b.id ∧ a.attr = b.attr := by
+  unfold ckey at h
+  obtain ⟨_, h1⟩ := enc_sep_inj _ _ _ _ h
+  obtain ⟨hk, h2⟩ := enc_sep_inj _ _ _ _ h1
+  obtain ⟨hi, h3⟩ := enc_sep_inj _ _ _ _ h2
+  exact ⟨hk, hi, enc_inj h3⟩
+
+theorem ckeyInjective_all (ds : List (Delta α)) : CkeyInjective ds :=
+  fun _ _ _ _ h => ckey_inj h
+
 /-- The carrier's `≤` is a total order (what `sorted` needs for a canonical result).  Holds at every
 ordered field; at `Float` it holds on NaN-free values up to the sign of zero. -/
 structure LeTotalOrder (α : Type) [Num α] : Prop where
